@@ -250,6 +250,10 @@ def check_C06(chk):
                                             MaxCancel="= 1", MaxWrites="= 1", WLens="<- W8", FrameOK="<- FrameReal", EmSmallFills="= 0",
                                             EmPong="<- S13", EmWacc="<- S1"))
     replay(chk, nd, chk.seed + 1)
+    # the websocket transport under write-side back pressure (see C20): every frame written arrives once, whole, in order
+    p, info = gen_net_trace("c06_burst", "ws", chk.seed * 100 + 51, sessions=0, nbytes=100, writes=False, burst=3000 if thorough else 400)
+    chk.extra["burst"] = info
+    trace_validate(chk, "c06_burst_tv", p, "websocket burst under back pressure", inv_every=25)
     for i in range(4 if thorough else 1):
         p, info = gen_trace(f"c06_trace{i}", chk.seed * 100 + i, sessions=8, frames=80, writes=True, extra=["--noka", "1"])
         if i == 0:
@@ -278,6 +282,12 @@ def check_C07(chk):
     nd, n = emit(chk, "c07_emit_wfail", consts(MaxFrames="= 2", Classes="<- ClsPong", Verifies="<- GateOn", FrameOK="<- FrameReal",
                                                WriteFailures="= TRUE", EmSmallFills="= 0", EmPong="<- S13"))
     replay(chk, nd, chk.seed + 2)
+    # tokio: the read is cancelled after part of the reply was accepted; the next read / write completes that reply - the peer
+    # still sees exactly one TINY_NONE per keep-alive (nothing re-sent from the start, nothing dropped)
+    nd, n = emit(chk, "c07_emit_cancel", consts(MaxFrames="= 1", Classes="<- ClsKa", Flavors="<- OnlyTokio", Verifies="<- GateOn", FrameOK="<- FrameReal",
+                                                MaxPending="= 1", MaxCancel="= 1", MaxWrites="= 1", WLens="<- W8", EmSmallFills="= 0",
+                                                EmPong="<- S13", EmWacc="<- None"), timeout=600)
+    replay(chk, nd, chk.seed + 3)
     p = os.path.join(WORK, "c07_sweep.ndjson")
     out = harness(["conn-sweep", "--what", "tiny", "--out", p, "--seed", str(chk.seed), "--half", "0" if thorough else "1"])
     chk.extra["sweep"] = json.loads(out.strip().splitlines()[-1])
